@@ -70,7 +70,11 @@ rounded_udiv_128_by_48 (uint64_t  hi,
                         uint64_t *result_hi)
 {
     uint64_t tmp, remainder, result_lo;
-    assert(div < ((uint64_t)1 << 48));
+    /* rounded_sdiv_128_by_49() passes the magnitude of a 49-bit signed
+     * divisor, which can be exactly 2^48; the arithmetic below only needs
+     * remainder << 16 to fit in 64 bits, which holds for div <= 2^48.
+     */
+    assert(div <= ((uint64_t)1 << 48));
 
     remainder = hi % div;
     *result_hi = hi / div;
